@@ -107,7 +107,7 @@ pub fn run<T: Fam>(rep: &mut Report, rng: &mut Rng) {
 pub fn sets(ctx: &Ctx) -> Vec<CaseSet> {
     let fam = family();
     let n = fam.len() as u64;
-    let per = ctx.size(3_000, 60_000);
+    let per = ctx.size(6_000, 180_000);
     vec![CaseSet::new(
         "type-family-round-trips",
         n * per,
